@@ -109,8 +109,8 @@ class Function:
     # initialiser - provided nothing the initialiser reads can change on any path from the definition to the use.
     PURE = ("ref", "member", "un", "bin", "cast", "paren", "index", "int", "char", "sizeof", "opaque")
 
-    def _single_defs(self):
-        d = getattr(self, "_sdefs", None)
+    def _single_defs(self, any_shape=False):
+        d = getattr(self, "_sdefs_any" if any_shape else "_sdefs", None)
         if d is not None:
             return d
         decls = {}      # did -> [(decl node, init)]
@@ -138,10 +138,13 @@ class Function:
                 continue
             if "[" in t or ((t.startswith("struct ") or t.startswith("union ") or t.startswith("const struct ")) and "*" not in t):
                 continue
-            if not self._pure(init) or not self._temp_shape(init):
+            if not self._pure(init) or not (any_shape or self._temp_shape(init)):
                 continue
             out[did] = (dn, init)
-        self._sdefs = out
+        if any_shape:
+            self._sdefs_any = out
+        else:
+            self._sdefs = out
         return out
 
     def _temp_shape(self, init):
@@ -257,15 +260,23 @@ class Function:
             return ln.get("did") in dids
         return mem
 
-    def copy_src(self, nid):
-        cache = getattr(self, "_csrc", None)
+    def def_expr(self, nid):
+        """like copy_src, for any pure defining expression (arithmetic included): the initialiser of the single-definition
+        local referenced at nid, if what it reads cannot have changed since.  Not applied by strip(); for engines that
+        want to see `left` as `capacity - offset` at a test of `left`."""
+        return self.copy_src(nid, any_shape=True)
+
+    def copy_src(self, nid, any_shape=False):
+        cname = "_csrc_any" if any_shape else "_csrc"
+        cache = getattr(self, cname, None)
         if cache is None:
-            cache = self._csrc = {}
+            cache = {}
+            setattr(self, cname, cache)
         if nid in cache:
             return cache[nid]
         cache[nid] = None
         n = self.nodes[nid]
-        sd = self._single_defs().get(n.get("did"))
+        sd = self._single_defs(any_shape).get(n.get("did"))
         if sd is None:
             return None
         dn, init = sd
